@@ -47,7 +47,12 @@ def run(ctx):
                       found_input=False)
     found = 0
     if fault:
-        for v in fault.get("violations", [])[:5]:
+        seen = set()
+        for v in fault.get("violations", []):
+            key = (v["wrapper"], v["hint"], v.get("hint_index"))
+            if key in seen or len(seen) >= 5:      # one replay per (wrapper, hint occurrence)
+                continue
+            seen.add(key)
             found += 1
             if v.get("hint_index") == -1:
                 what = "honest execution of wrapper %s on %s: %s (%s)" % (
